@@ -7,7 +7,7 @@ from ..runner import Suite
 from .. import stdio_gen as G
 
 MANIFEST = dict(
-    text="Lean 4 theorems about an executable model of StdioClient._stdout_reader (incremental UTF-8 decoder with CPython's validity checks, split-on-LF buffer, str.strip, per-line processing with the parser as a parameter): for EVERY parser, every text and every way of cutting its UTF-8 encoding into any number of chunks (inside characters and CRLF included) the reader's outputs and final state are the same and equal the per-line processing of the text; the read stream is exactly the accepted lines in order; a blank / non-JSON / non-message line inserted anywhere changes nothing and leaves the reader alive; notification offers are the id-less part of the read stream; only a raw LF separates lines. Correspondence: the real StdioClient is driven through the anyio.open_process seam with a scripted child whose stdout yields the chosen chunks; all 1- and 2-cut positions of bounded streams, seeded multi-cuts, byte-at-a-time; the parser verdicts given to the model are those of the library's real parser on whole lines.",
+    text="Lean 4 theorems about an executable model of StdioClient._stdout_reader (incremental UTF-8 decoder with CPython's validity checks, split-on-LF buffer, str.strip, per-line processing with the parser as a parameter): for EVERY parser, every text and every way of cutting its UTF-8 encoding into any number of chunks (inside characters and CRLF included) the reader's outputs and final state are the same and equal the per-line processing of the text; the read stream is exactly the accepted lines in order; a blank / non-JSON / non-message line inserted anywhere changes nothing and leaves the reader alive; notification offers are the id-less part of the read stream; only a raw LF separates lines; and with the parser instantiated by the library's real codec (Json.dec + Rpc.parseMsg): the line Json.enc st (Rpc.emit m) of any constructor-built message, in any encoder style, with blanks around it, LF or CRLF, is accepted and contributes exactly the message, and a stream of such lines with junk between them delivers exactly the messages in order for every chunking. Correspondence: the real StdioClient is driven through the anyio.open_process seam with a scripted child whose stdout yields the chosen chunks; all 1- and 2-cut positions of bounded streams, seeded multi-cuts, byte-at-a-time; the parser verdicts given to the model are those of the library's real parser on whole lines.",
     note="Trusted: Lean kernel, the harness (scripted process, virtual-time loop), CPython's codecs incremental decoder and str.strip/str.split as sampled. 'Well-formed line' is defined by the library's own fast_json.loads + parse_message.",
     technique="Lean 4 proof over a hand-written executable model + correspondence run against the real StdioClient",
     design="5/C05",
@@ -24,6 +24,8 @@ THEOREMS = [
     "c05_bad_line_isolated",
     "c05_notifications_offered",
     "c05_only_lf_separates",
+    "c05_real_codec_line",
+    "c05_real_codec_stream",
 ]
 RULE = (
     "streams of 1..6 lines (messages in several serialisations with ASCII / 2- / 3- / 4-byte characters, U+0085, "
